@@ -195,7 +195,9 @@ PROPS = {
                 "(string/rune/nil/foreign), SetSymbol, SetEncap (strings, pairs, clashing pairs, 1- and 3-element and empty slices, no "
                 "argument), SetAuxiliary, Set/UnsetLogLevel by name (any case, unknown names), LogLevel constant and raw int incl. 0, 65535, "
                 "out-of-range and negative; after every call the full dump (VerifDump: option word, FIFO, symbol, delimiter, encapsulation, "
-                "ID, category, level word, aux identity, content length) and every public getter are compared; non-trivial = at least 2 calls",
+                "ID, category, level word, aux identity, content length), every public getter and String() (model: Stk.String / condString on the "
+                "model's configuration; specification: the C02 grammar on the configuration the independent-switch state stands for) are compared; "
+                "non-trivial = at least 2 calls",
         "modelled": COMMON_MODELLED + ["auxiliary maps by identity; id 0 = a map the library allocated itself",
                                        "strings.ToUpper on level names: ASCII plus U+0131/U+017F (the only code points whose upper case is ASCII)"],
         "assumptions": ["SetID(\"_random\"/\"_addr\") (generated IDs) is excluded: the generator never produces the two magic words",
